@@ -34,6 +34,10 @@ def pathNatAux : Nat → Path → Nat
 
 def pathNat (p : Path) : Nat := pathNatAux 0 p
 
+/-- `FeltToPath(key, height)` / `FeltToKey`: the low `height` bits of `n`, most significant first. -/
+def natToPath (height n : Nat) : Path :=
+  (List.range height).reverse.map (fun i => n.testBit i)
+
 /-- `CommonMSBs`: longest common prefix. -/
 def cpre : Path → Path → Path
   | a :: as, b :: bs => if a = b then a :: cpre as bs else []
@@ -247,5 +251,10 @@ def absStep (m : Path → HTerm) : Op → (Path → HTerm)
   | .hash => m
 
 def absRun (ops : List Op) : Path → HTerm := ops.foldl absStep (fun _ => .felt 0)
+
+/-- `calculateCommitment` (core/receipt.go): item `i` is written under key `i` of a height-64 trie
+(transaction, event and receipt commitments). -/
+def commitmentOps (items : List HTerm) : List Op :=
+  ((List.range items.length).zip items).map (fun e => Op.put (natToPath 64 e.1) e.2)
 
 end Juno.C01
